@@ -371,7 +371,7 @@ def seq_eq(A, B, rel=1e-9, abs_=1e-12):
 
 def jsonable(v, depth=0):
     """Best-effort conversion of a witness to JSON-serialisable data."""
-    if depth > 6:
+    if depth > 60:
         return repr(v)[:200]
     if isinstance(v, Raised):
         return {"raised": v.brief(), "traceback": v.tb}
